@@ -42,7 +42,20 @@ def run_one(name, checks):
                                 "wall_s": round(time.time() - t0, 1)}
     finally:
         shutil.rmtree(tmp, True)
-    json.dump(res, open(os.path.join(d, "result.json"), "w"), indent=1)
+    # a partial re-run keeps the record of the checks it did not run
+    rp = os.path.join(d, "result.json")
+    if os.path.exists(rp) and len(checks) < len(ALL) and "error" not in res:
+        try:
+            old = json.load(open(rp))
+            head = subprocess.run(["git", "rev-parse", "--short", "HEAD"], cwd=V, capture_output=True, text=True).stdout.strip()
+            for c, v in res["checks"].items():
+                v["rerun_at_commit"] = head
+            merged = dict(old.get("checks", {}))
+            merged.update(res["checks"])
+            res = dict(old, checks=merged, repo_tests_with_patch=res.get("repo_tests_with_patch", old.get("repo_tests_with_patch")))
+        except Exception:
+            pass
+    json.dump(res, open(rp, "w"), indent=1)
     return res
 
 
